@@ -982,11 +982,14 @@ def rule_scan_end(prog, rep, tier, anchor="defaults_utils.extract_default"):
             if got == want:
                 rep.holds("SCAN-END", inst, loc(prog, body[search_i + 1]), "hands %r to the ladder" % got)
             else:
+                how = "cut-short" if want.startswith(got) else "runs-on" if got.startswith(want) else "altered"
                 rep.violation(Finding(
-                    "SCAN-END", anchor, "scan:%s:%s" % (kind, "cut-short" if want.startswith(got) or len(got) < len(want) else "runs-on"),
+                    "SCAN-END", anchor, "scan:%s:%s" % (kind, how),
                     "behind the announcement stands %r; the scan hands %r to the conversion ladder instead of %r: %s" % (
-                        tail, got, want, "the value is cut short (a full stop inside it ended the scan)" if len(got) < len(want)
-                        else "what follows the value is taken for part of it (the scan no longer stops at the full stop behind it)"), loc(prog, body[search_i + 1])))
+                        tail, got, want, {"cut-short": "the value is cut short (something inside it ended the scan)",
+                                          "runs-on": "what follows the value is taken for part of it (the scan does not stop at the full stop behind it)",
+                                          "altered": "the text is changed on its way to the ladder (decoration that tells what kind of value it is - quotes, brackets - is "
+                                                     "removed or something is added before the kind is decided)"}[how]), loc(prog, body[search_i + 1])))
         except _Exc as x:
             resolved += 1
             rep.violation(Finding("SCAN-END", anchor, "scan:%s:%s" % (kind, x.name), "scanning %r raises %s at `%s`" % (tail, x.name, src(x.at, 40)), loc(prog, x.at)))
